@@ -21,7 +21,7 @@ def shuffle(tasks):
 ASTRO_KEY = ("crate", "astro", "f64")
 
 
-def dump_worlds(backends=("f64", "dec"), astro=True):
+def dump_worlds(backends=("f64", "dec"), astro=True, fixture=False):
     """dump /repo (and the astronomical crate) -- must run BEFORE the worker pool is forked; -> label -> pool key"""
     import os
     from engine.mirsmt import frontend
@@ -32,6 +32,14 @@ def dump_worlds(backends=("f64", "dec"), astro=True):
         d.label = "astro"
         d.crate_path = "astronomical_quantities"
         keys["astro"] = ASTRO_KEY
+    if fixture:
+        from props import synthdefs
+        for be in backends:
+            cdir = frontend.make_crate("fixture", synthdefs.SYNTH_RS, be, "std,doc")
+            d = frontend.dump_crate("fixture", cdir, be, feats=None, no_default=False, keep_catalogue=True)
+            d.label = "fix" + be
+            d.crate_path = "crate"
+            keys["fix" + be] = ("crate", "fixture", be)
     return keys
 
 
@@ -100,7 +108,8 @@ def paths_for(w):
     for q, m in w.module.items():
         if q == w.AMT:
             continue
-        crate = getattr(w.dump, "crate_path", "quantities")
+        own = getattr(w.dump, "own_types", None)
+        crate = getattr(w.dump, "crate_path", "quantities") if (own is None or q in own) else "quantities"
         out[q] = "%s::%s::%s" % (crate, m, q) if m else "%s::%s" % (crate, q)
     return out
 
@@ -176,7 +185,7 @@ def probe_amounts_2(c):
     return out
 
 
-def native_confirm(report, prop, cands, desc, oracle, probes=None, max_groups=40):
+def native_confirm(report, prop, cands, desc, oracle, probes=None, max_groups=40, by_role=False, per_group=3):
     """Replay candidates natively.  One group per candidate key; a group is a
     VIOLATION iff some concrete case (the solver's model first, then probe
     amounts) makes `oracle` report a violation on the native output."""
@@ -186,8 +195,19 @@ def native_confirm(report, prop, cands, desc, oracle, probes=None, max_groups=40
     t0 = time.time()
     groups = {}
     for c in cands:
-        groups.setdefault((c["backend"], c["key"]), []).append(c)
+        # by_role: one group per call-site role (all unit pairs of that role are the same finding);
+        # a group counts as reproduced as soon as one of its candidates reproduces
+        groups.setdefault((c["backend"], role_key(c) if by_role else c["key"]), []).append(c)
     keys = sorted(groups)
+    # when truncating, take candidates round-robin over (backend, kind) so that one noisy family cannot crowd out the others
+    buckets = {}
+    for k in keys:
+        buckets.setdefault((k[0], groups[k][0]["kind"]), []).append(k)
+    keys = []
+    while any(buckets.values()):
+        for bk in sorted(buckets):
+            if buckets[bk]:
+                keys.append(buckets[bk].pop(0))
     if len(keys) > max_groups:
         report.notes.append("%d candidate groups; native replay of the first %d" % (len(keys), max_groups))
     todo = keys[:max_groups]
@@ -195,14 +215,15 @@ def native_confirm(report, prop, cands, desc, oracle, probes=None, max_groups=40
     for k in todo:
         c0 = groups[k][0]
         cases = []
-        for c in groups[k][:3]:
+        for c in groups[k][:per_group]:
             if c.get("amounts") is not None:
                 cases.append(dict(c))
         if probes and c0["op"] not in ("none",):
-            for am in _call_probes(probes, c0, desc[c0.get("world", k[0])]):
-                c2 = dict(c0)
-                c2["amounts"] = am
-                cases.append(c2)
+            for cx in (groups[k][:per_group] if by_role else [c0]):
+                for am in _call_probes(probes, cx, desc[cx.get("world", k[0])]):
+                    c2 = dict(cx)
+                    c2["amounts"] = am
+                    cases.append(c2)
         if not cases:
             c2 = dict(c0)
             c2["amounts"] = (probes(c0)[0] if probes else [])
